@@ -225,6 +225,33 @@ def page_reference_rule(chk, facts, rule):
                 chk.ob(rule, 'deco4004.c:%s:page-of-Address+%d@%d' % (d.name, k, n), ok, d.loc(ln),
                        'page taken from the address behind the instruction' if ok else
                        'the target page is taken from Address+%d, the instruction length is %s' % (k, sorted(ls)))
+    # the same through a helper: page = (param [+ k]) & 0x0f00 in another function of the module, called from the decoder
+    ud = facts.unit('deco4004.c')
+    for h in ud.funcs.values():
+        if h.file != 'deco4004.c' or h is d:
+            continue
+        for b, i, ln, m in h.nodes():
+            if not (m[0] == 'b' and m[1] == '&' and const_val(m[3]) == 0x0f00):
+                continue
+            inner = nocast(m[2])
+            k0, par = 0, None
+            if inner[0] == 'p':
+                par = inner[1]
+            elif inner[0] == 'b' and inner[1] == '+' and nocast(inner[2])[0] == 'p' and const_val(inner[3]) is not None:
+                par, k0 = nocast(inner[2])[1], const_val(inner[3])
+            if par is None:
+                continue
+            pidx = [q['name'] for q in h.params].index(par)
+            for b2, i2, l2, c in d.calls(h.name):
+                a = nocast(c[2][pidx])
+                k = k0 + (const_val(a[3]) if a[0] == 'b' and a[1] == '+' and const_val(a[3]) is not None else 0)
+                ls = {const_val(x[3]) for ln2, ex in d.blocks[b2]['elems'] for x in walk_own(ex)
+                      if is_assign(x) and x[1] == '=' and strip(x[2])[0] == 'm' and strip(x[2])[2].endswith('.CodeLen') and const_val(x[3])}
+                n += 1
+                ok = ls == {k}
+                chk.ob(rule, 'deco4004.c:%s:page-of-Address+%d@%d' % (d.name, k, n), ok, d.loc(l2),
+                       'page taken from the address behind the instruction' if ok else
+                       'through %s() the target page is taken from Address+%d, the instruction length is %s' % (h.name, k, sorted(ls)))
     if n < 4:
         raise AnalysisBroken('only %d page references found for the 4004' % n)
     return n
